@@ -9,7 +9,7 @@ BUFREADER_FILE = "std::io::buffered::bufreader::BufReader<std::fs::File>"
 
 
 def _line_loop(R, f):
-    loops = [l for l in L.input_loops(f) if re.search(L.LINES_NEXT + "|" + L.ENUM_NEXT, short(l.next.name))]
+    loops = [l for l in L.input_loops(f) if L.is_line_loop(l) or re.search(L.ENUM_NEXT, short(l.next.name))]
     if len(loops) != 1 or not loops[0].ok:
         return None
     return loops[0]
